@@ -137,6 +137,69 @@ def c05_unevaluated(form: int, defined: bool, use: int, other: int) -> bool:
     return not gin.config_is_locked()
 
 
+PNAMES = ['m', 'm/x', 'm/x/y', 'x']           # macro names that are '/'-prefixes of one another
+REFS = ['%{n}', '@{n}/macro()', '@{n}/gin.macro()']
+
+
+def c05_prefix(d0: bool, d1: bool, d2: bool, d3: bool, u0: bool, u1: bool, u2: bool, u3: bool,
+               spell: int, bindspell: int, late: bool, v0: int, v1: int, v2: int, v3: int) -> bool:
+  """
+  pre: 0 <= spell < 3 and 0 <= bindspell < 3
+  """
+  world.fresh()
+  defined = [rt.flag(b) for b in (d0, d1, d2, d3)]
+  used = [rt.flag(b) for b in (u0, u1, u2, u3)]
+  spell = rt.pick(spell, 3)          # how the uses are spelled
+  bindspell = rt.pick(bindspell, 3)  # how the definitions are made
+  late = rt.flag(late)               # definitions after the uses
+  vals = [v0, v1, v2, v3]
+  if any(u and not d for u, d in zip(used, defined)):
+    # finalize will fail and its message embeds config_str(): no S-input may be bound then
+    vals = [11, 22, 33, 44]
+  rt.sig(('prefix', tuple(defined), tuple(used), spell, bindspell, late),
+         nontrivial=any(used) and any(defined))
+  if not any(used):
+    rt.discard()
+
+  def define():
+    for i in range(4):
+      if defined[i]:
+        if bindspell == 0:
+          gin.bind_parameter((PNAMES[i], 'gin.macro', 'value'), vals[i])
+        elif bindspell == 1:
+          gin.bind_parameter(PNAMES[i] + '/macro.value', vals[i])
+        else:
+          gin.bind_parameter('%' + PNAMES[i], vals[i])
+
+  if not late:
+    define()
+  with rt.native():
+    items = ', '.join("'%d': %s" % (i, REFS[spell].format(n=PNAMES[i])) for i in range(4) if used[i])
+    gin.parse_config('vw.cons.p = {%s}' % items)
+  if late:
+    define()
+  exc = None
+  try:
+    gin.finalize()
+  except Exception as e:
+    exc = e
+  unbound = [i for i in range(4) if used[i] and not defined[i]]
+  if unbound:
+    # a macro that is referenced but never bound is rejected, whatever ELSE is bound
+    return (isinstance(exc, ValueError) and not gin.config_is_locked()) or rt.no(
+        'finalize accepted the never-bound macro %s' % PNAMES[unbound[0]])
+  if exc is not None:
+    with rt.native():
+      return rt.no('finalize rejected a fully bound configuration: %r' % (exc,))
+  world.cons()
+  p = world.LOG[-1][1][0]
+  for i in range(4):
+    if used[i]:
+      if not rt.same('value of ' + PNAMES[i], p[str(i)], vals[i]):
+        return False
+  return True
+
+
 FAMILY = ['K', 'a.K', 'b.a.K', 'c.a.K', 'b.L', 'L', 'c.b.L', '1bad', 'a..K']
 QUERIES = ['K', 'a.K', 'b.a.K', 'c.a.K', 'L', 'b.L', 'c.b.L', 'x.K', 'Q']
 
@@ -231,6 +294,20 @@ HARNESSES = {
                'thorough': dict(split=dict(use=[0, 1, 2, 3, 4], form=[0, 1, 2]), budget_s=60)},
         bounds='3 placements of an unevaluated macro reference x bound or not x proper uses of the same macro '
                'before / after / both / nested x an unrelated macro before / after'),
+    'c05_prefix': dict(
+        fn='c05_prefix',
+        anchors=['gin.config:validate_reference', 'gin.config:validate_macros_hook', 'gin.config:macro'],
+        smoke=[dict(d0=True, d1=False, d2=False, d3=True, u0=True, u1=True, u2=False, u3=False, spell=0,
+                    bindspell=0, late=False, v0=1, v1=2, v2=3, v3=4),
+               dict(d0=True, d1=True, d2=True, d3=False, u0=True, u1=True, u2=True, u3=False, spell=1,
+                    bindspell=2, late=True, v0=1, v1=2, v2=3, v3=4)],
+        tiers={'quick': dict(split=dict(spell=[0, 1, 2], bindspell=[0, 1, 2], late=[False, True]),
+                             fixed=dict(d3=False, u3=False), budget_s=100),
+               'thorough': dict(split=dict(spell=[0, 1, 2], bindspell=[0, 1, 2], late=[False, True]),
+                                budget_s=300)},
+        bounds='macro names m, m/x, m/x/y (and x): every subset defined x every non-empty subset used, 3 spellings of '
+               'the uses (%name, @name/macro(), @name/gin.macro()), 3 spellings of the definitions (tuple key, '
+               '"name/macro.value", "%name"), definitions before or after the uses; values: all ints'),
     'c05_constants': dict(
         fn='c05_constants',
         anchors=['gin.config:constant', 'gin.config:_retrieve_constant', 'gin.config:macro'],
